@@ -17,6 +17,7 @@ import (
 
 	"github.com/Comcast/sheens/core"
 	"github.com/Comcast/sheens/crew"
+	"github.com/Comcast/sheens/interpreters"
 	"github.com/Comcast/sheens/match"
 	"github.com/Comcast/sheens/sio"
 	jyaml "github.com/jsccast/yaml"
@@ -226,7 +227,47 @@ func variants(a *ref.ASpec, dir string, idx int) []variant {
 			return c, err
 		}, true)...)
 	}
+	// the names under which the standard interpreter map (what mdb, mexpect and sheensio
+	// use) offers the ECMAScript interpreter: a spec naming any of them is the same spec
+	for _, alias := range interpreterAliases {
+		s := a.Core(false, ref.NativeNilErr)
+		relabel(s, alias)
+		err := s.Compile(context.Background(), interpreters.Standard(), true)
+		vs = append(vs, variant{"interpreter-name-" + alias + "/standard-map", s, err})
+		if err == nil {
+			js, err2 := json.Marshal(s)
+			var r core.Spec
+			if err2 == nil {
+				err2 = json.Unmarshal(js, &r)
+			}
+			if err2 == nil {
+				err2 = r.Compile(context.Background(), interpreters.Standard(), true)
+			}
+			vs = append(vs, variant{"interpreter-name-" + alias + "/standard-map-reloaded", &r, err2})
+		}
+	}
 	return vs
+}
+
+var interpreterAliases = []string{"", "ecmascript", "ecmascript-5.1", "ecmascript-ext", "ecmascript-5.1-ext", "goja"}
+
+// relabel names the given interpreter in every action and guard source.
+func relabel(s *core.Spec, name string) (n int) {
+	for _, nd := range s.Nodes {
+		if nd.ActionSource != nil {
+			nd.ActionSource.Interpreter = name
+			n++
+		}
+		if nd.Branches != nil {
+			for _, b := range nd.Branches.Branches {
+				if b.GuardSource != nil {
+					b.GuardSource.Interpreter = name
+					n++
+				}
+			}
+		}
+	}
+	return n
 }
 
 func trace(rec *fw.Rec, replay interface{}, spec *core.Spec, bs map[string]interface{}, msgs []interface{}) (string, bool) {
@@ -277,8 +318,8 @@ var shapes = []interface{}{
 }
 
 func Run(cfg fw.Config, rec *fw.Rec) {
-	rec.Rule = "each abstract spec (random node graph, guards, actions, all error settings, plus a start node whose message-branch patterns cover every JSON shape at the top level: map, array, bare string, bare variable, number, boolean, null, property variable) is rendered as Go structures, JSON, YAML via jsccast/yaml, and through sio's URL loader (YAML and JSON files) and inline loader, each with inline patterns and with JSON-text patterns under patternSyntax json, each compiled once / three times / compiled-serialised-reloaded-compiled (42 variants incl. Go structures whose inline patterns are typed Go containers such as map[string]string, []string, []int); all must compile and give identical traces on shared message sequences; unknown interpreter / pattern syntax / branching type must fail at Compile; non-trivial = spec whose trace has >= 3 strides; distinct by spec"
-	rec.Required = []string{"variants_agree", "negative_unknown_interpreter", "negative_unknown_pattern_syntax", "negative_unknown_branching_type", "string_pattern_as_json_text", "traces_with_scalar_messages"}
+	rec.Rule = "each abstract spec (random node graph, guards, actions, all error settings, plus a start node whose message-branch patterns cover every JSON shape at the top level: map, array, bare string, bare variable, number, boolean, null, property variable) is rendered as Go structures, JSON, YAML via jsccast/yaml, and through sio's URL loader (YAML and JSON files) and inline loader, each with inline patterns and with JSON-text patterns under patternSyntax json, each compiled once / three times / compiled-serialised-reloaded-compiled (42 variants incl. Go structures whose inline patterns are typed Go containers such as map[string]string, []string, []int), and with every name the standard interpreter map offers for the ECMAScript interpreter ('', ecmascript, ecmascript-5.1, ecmascript-ext, ecmascript-5.1-ext, goja), compiled with that map, once and reloaded (12 more); all must compile and give identical traces on shared message sequences; unknown interpreter (also: a name only the standard map knows, compiled with the default interpreters; an unknown name with the standard map) / pattern syntax / branching type must fail at Compile; non-trivial = spec whose trace has >= 3 strides; distinct by spec"
+	rec.Required = []string{"variants_agree", "negative_unknown_interpreter", "negative_standard_only_name_with_default_interpreters", "negative_unknown_interpreter_with_standard_map", "negative_unknown_pattern_syntax", "negative_unknown_branching_type", "string_pattern_as_json_text", "traces_with_scalar_messages"}
 	rec.Assume = []string{"specs are deterministic", "the YAML rendering is block style with JSON flow scalars/collections for patterns"}
 	n := cfg.Pick(400, 20000)
 	fw.Parallel(cfg.Workers, n, func(w, i int) {
@@ -395,6 +436,24 @@ func Run(cfg fw.Config, rec *fw.Rec) {
 			}
 			return false
 		})
+		// a name only the standard map knows is unknown to the default interpreters, and an
+		// unknown name is unknown to the standard map too
+		negWith := func(name string, interps core.Interpreters, label string) {
+			s := a.Core(false, ref.NativeNilErr)
+			if relabel(s, label) == 0 {
+				return
+			}
+			err := s.Compile(context.Background(), interps, true)
+			rec.Eval(1)
+			if err == nil {
+				rec.Violation("C13:accepted-at-compile:"+name, fmt.Sprintf("a spec whose sources name the interpreter %q compiles without error although the interpreters given do not offer it", label), map[string]interface{}{"case": replay})
+				return
+			}
+			rec.Bucket("negative_" + name)
+		}
+		negWith("standard_only_name_with_default_interpreters", nil, "goja")
+		negWith("unknown_interpreter_with_standard_map", interpreters.Standard(), "ecmascript-6")
+		negWith("noop_name_with_default_interpreters", nil, "noop")
 		neg("unknown_pattern_syntax", func(s *core.Spec) bool {
 			s.PatternSyntax = "no-such-syntax"
 			for _, n := range s.Nodes {
